@@ -66,7 +66,7 @@ func (o Op) String() string {
 // (strings and byte slices are copied at the boundary in the pipe transport).
 type Req struct {
 	Op   Op
-	Obj  uintptr // identity of the primitive (address; used only as a map key)
+	Obj  uint64 // identity of the primitive (a per-process unique id stored in the facade object; never an address, which the allocator may reuse)
 	A, B int64
 	S    string
 	Data []byte
